@@ -87,10 +87,11 @@ TypeOK == /\ pc \in {"idle", "adjP", "tone", "bits", "mark", "gap", "done"}
 EdgesMonotone == Monotone(edges) /\ Last(edges) <= t
 
 \* C11: "contains exactly the pulses the block specifies": the played signal is the specified one
-PulsesExact == Done => PlayedSignal(edges) = ExpectedSignal(tape, fe, gpol)
+PulsesExact == Done => PlayedSignal(edges) \in ExpectedSignals(tape, fe, gpol)
 
 \* the level the tape is left at (not part of C11; holds on the model)
-FinalLevelOK == Done => Xor(EdgeFinalLevel(edges), mis) = FinalLevel(tape, TapeSegs(tape, fe, gpol), gpol)
+FinalLevelOK == (Done /\ ~FinalTailEither(TapeSegs(tape, fe, gpol))) =>
+                  Xor(EdgeFinalLevel(edges), mis) = FinalLevel(tape, TapeSegs(tape, fe, gpol), gpol)
 
 \* C11: "decodes back to exactly the block's bits; ranges point at the first and last edge of the data"
 RangesExact == Done => RangeClause(tape, fe, gpol, edges, RangesOf(St, tape)) = "ok"
